@@ -4,6 +4,7 @@ package main
 import (
 	"fmt"
 
+	"github.com/dominant-strategies/go-quai/common"
 	"github.com/dominant-strategies/go-quai/core/types"
 	"github.com/dominant-strategies/go-quai/params"
 
@@ -13,20 +14,31 @@ import (
 const nKeys = 6
 
 type pool struct {
-	keys      [][]byte // private keys; 0..nKeys-1 own in-zone Qi addresses, nKeys owns an in-zone Quai address
+	loc       common.Location // the node location the keys and addresses are made for
+	keys      [][]byte        // private keys; 0..nKeys-1 own in-zone Qi addresses, nKeys owns an in-zone Quai address, nKeys+1 a Qi address in ANOTHER zone of the region
 	ki        []keyInfo
 	quaiLocal [][]byte // in-zone Quai-ledger addresses (conversion / wrapping targets)
 	extRegion [][]byte // Qi addresses in other zones of the same region
-	extPrime  [][]byte // Qi addresses in another region
+	extPrime  [][]byte // Qi addresses in another region (the first one with the node's zone number)
 	extQuai   []byte   // Quai address in another zone
+	swapQi    []byte   // Qi / Quai address at the location with region and zone number exchanged (nil when they are equal)
+	swapQuai  []byte
 }
 
-func newPool(r *hlib.Rng) *pool {
-	p := &pool{}
+func (p *pool) locBytes() []byte { return []byte{p.loc[0], p.loc[1]} }
+
+// newPool makes keys and addresses for a node at loc: "local" = prefix region<<4|zone, the other zones of the
+// region, other regions (one of them with the same zone number), and the location with region and zone exchanged.
+func newPool(r *hlib.Rng, loc common.Location) *pool {
+	p := &pool{loc: loc}
+	pre := loc.BytePrefix()
+	reg, zon := byte(loc.Region()), byte(loc.Zone())
+	at := func(rg, zn byte) byte { return (rg%3)<<4 | zn%3 }
 	for i := 0; i < nKeys; i++ {
-		p.keys = append(p.keys, grindKey(r, true))
+		p.keys = append(p.keys, grindKey(r, pre, true))
 	}
-	p.keys = append(p.keys, grindKey(r, false))
+	p.keys = append(p.keys, grindKey(r, pre, false))
+	p.keys = append(p.keys, grindKey(r, at(reg, zon+1), true))
 	for _, k := range p.keys {
 		p.ki = append(p.ki, mkKey(k))
 	}
@@ -40,16 +52,19 @@ func newPool(r *hlib.Rng) *pool {
 		}
 		return a
 	}
-	p.quaiLocal = [][]byte{mk(0x00, false), mk(0x00, false)}
-	p.extRegion = [][]byte{mk(0x01, true), mk(0x02, true)}
-	p.extPrime = [][]byte{mk(0x10, true), mk(0x21, true)}
-	p.extQuai = mk(0x01, false)
+	p.quaiLocal = [][]byte{mk(pre, false), mk(pre, false)}
+	p.extRegion = [][]byte{mk(at(reg, zon+1), true), mk(at(reg, zon+2), true)}
+	p.extPrime = [][]byte{mk(at(reg+1, zon), true), mk(at(reg+2, zon+1), true)}
+	p.extQuai = mk(at(reg, zon+1), false)
+	if reg != zon {
+		p.swapQi, p.swapQuai = mk(at(zon, reg), true), mk(at(zon, reg), false)
+	}
 	return p
 }
 
 func (p *pool) freshQi(r *hlib.Rng) []byte {
 	a := r.Bytes(20)
-	a[0] = 0x00
+	a[0] = p.loc.BytePrefix()
 	a[1] |= 0x80
 	return a
 }
@@ -374,7 +389,57 @@ func corpus(p *pool, r *hlib.Rng) []*Scenario {
 	wone("worker-gas-limit", corpusBase(p, 6, 6), g4, tx([]InSpec{in(0)}, []OutSpec{out(5, p.extRegion[0])}), tx([]InSpec{in(1)}, []OutSpec{out(5, fa())}))
 	wone("worker-locked", lb, dc, tx([]InSpec{in(0)}, []OutSpec{out(5, fa())}))
 	wone("worker-quai-owned-entry", qb, dc, tx([]InSpec{{RefTx: -1, Hash: hashN(1), Key: nKeys}}, []OutSpec{out(5, fa())}))
+	// ---- the node location: what is "local" is decided by region AND zone.  A key / an entry / a target whose
+	// address lies in another zone of the region, in another region with the same zone number, and (nodes whose
+	// region and zone number differ) at the location with the two exchanged.
+	fz := nKeys + 1 // key whose Qi address lies in the next zone of the region
+	fzBase := []UtxoSpec{{Hash: hashN(1), Den: 6, Owner: p.ki[fz].addr}, {Hash: hashN(2), Den: 6, Owner: p.ki[0].addr}}
+	one("entry-owned-in-other-zone-spent-with-its-key", true, fzBase, dc, tx([]InSpec{{RefTx: -1, Hash: hashN(1), Key: fz}}, []OutSpec{out(5, fa())}))
+	one("entry-owned-in-other-zone-spent-with-local-key", true, fzBase, dc, tx([]InSpec{{RefTx: -1, Hash: hashN(1), Key: 0}}, []OutSpec{out(5, fa())}))
+	one("etx-same-zone-number-other-region", true, corpusBase(p, 6), dc, tx([]InSpec{in(0)}, []OutSpec{out(5, p.extPrime[0]), out(4, fa())}))
+	cvr := tx([]InSpec{in(0)}, []OutSpec{out(5, p.quaiLocal[0]), out(4, fa())})
+	cvr.Data = append([]byte{0, 50}, p.extRegion[0]...) // refund address in the Qi ledger of another zone
+	one("conversion-refund-in-other-zone", true, corpusBase(p, 6), dc, cvr)
+	cvx := tx([]InSpec{in(0)}, []OutSpec{out(5, p.extQuai), out(4, fa())})
+	cvx.Data = convData
+	one("conversion-target-in-other-zone", true, corpusBase(p, 6), dc, cvx)
+	if p.swapQi != nil {
+		one("etx-to-swapped-location", true, corpusBase(p, 6), dc, tx([]InSpec{in(0)}, []OutSpec{out(5, p.swapQi), out(4, fa())}))
+		cvs := tx([]InSpec{in(0)}, []OutSpec{out(5, p.swapQuai), out(4, fa())})
+		cvs.Data = convData
+		one("conversion-target-at-swapped-location", true, corpusBase(p, 6), dc, cvs)
+		ws := tx([]InSpec{in(0)}, []OutSpec{out(5, p.quaiLocal[0])})
+		ws.Data = p.swapQuai
+		one("wrapping-owner-at-swapped-location", true, corpusBase(p, 6), dc, ws)
+		es := dc
+		es.Elig = allElig()
+		pos := int(p.swapQi[0]>>4)*16 + int(p.swapQi[0]&15)
+		es.Elig[pos/8] &^= 1 << (pos % 8) // every slice eligible except the swapped one
+		one("etx-swapped-location-ineligible", true, corpusBase(p, 6), es, tx([]InSpec{in(0)}, []OutSpec{out(5, p.swapQi)}))
+		eo := dc
+		eo.Elig = make([]byte, 32)
+		pos = int(p.extPrime[0][0]>>4)*16 + int(p.extPrime[0][0]&15)
+		eo.Elig[pos/8] |= 1 << (pos % 8) // only the target slice is eligible
+		one("etx-only-target-slice-eligible", true, corpusBase(p, 6), eo, tx([]InSpec{in(0)}, []OutSpec{out(5, p.extPrime[0])}))
+		wone("worker-etx-to-swapped-location", corpusBase(p, 6, 6), dc, tx([]InSpec{in(0)}, []OutSpec{out(5, p.swapQi)}), tx([]InSpec{in(1)}, []OutSpec{out(5, fa())}))
+	}
+	// ---- node restart between blocks (disk backends are closed and reopened): a spent output stays spent, a
+	// created one stays spendable, a rejected block left nothing behind
+	rs := func(name string, base []UtxoSpec, blocks ...[]TxSpec) {
+		s := &Scenario{Kind: "proc", Name: name, Tracks: true, Restart: true, Keys: p.keys, Base: base}
+		for _, b := range blocks {
+			s.Blocks = append(s.Blocks, BlockSpec{Ctx: dc, Txs: b})
+		}
+		cs = append(cs, s)
+	}
+	rs("restart-same-outpoint-two-blocks", corpusBase(p, 6), []TxSpec{t1}, []TxSpec{t2})
+	rs("restart-spend-created-next-block", corpusBase(p, 6), []TxSpec{c1}, []TxSpec{c2}, []TxSpec{c3})
+	rs("restart-after-rejected-block", corpusBase(p, 6, 6), []TxSpec{t1, t2}, []TxSpec{t1}, []TxSpec{tx([]InSpec{in(1)}, []OutSpec{out(5, fa())}), t2})
+	rs("restart-created-spent-in-block-then-respent", corpusBase(p, 6), []TxSpec{c1, c2}, []TxSpec{c3})
 	cs = append(cs, poolCorpus(p, r)...)
+	for _, s := range cs {
+		s.Loc = p.locBytes()
+	}
 	return cs
 }
 
@@ -455,7 +520,7 @@ func poolCorpus(p *pool, r *hlib.Rng) []*Scenario {
 // gossiped to the pool -- as they are, or as a twin that carries the same keys but is not signed by them -- and the
 // block then carries the gossiped object (Same), the twin, or the original.
 func poolify(r *hlib.Rng, s *Scenario, rep *hlib.Report) *Scenario {
-	ns := &Scenario{Kind: "pool", Name: s.Name, Tracks: true, Keys: s.Keys, Base: s.Base}
+	ns := &Scenario{Kind: "pool", Name: s.Name, Tracks: true, Keys: s.Keys, Base: s.Base, Loc: s.Loc}
 	ctx0 := s.Blocks[0].Ctx
 	remap := map[int]int{}
 	old, cur := 0, 0
@@ -692,6 +757,7 @@ func (g *gen) ctx0() CtxSpec {
 		e := allElig()
 		e[0] = byte(g.r.Intn(256))
 		e[2] = byte(g.r.Intn(256))
+		e[4] = byte(g.r.Intn(256))
 		c.Elig = e
 	}
 	return c
@@ -868,7 +934,7 @@ func (g *gen) commitTx(t *TxSpec, idx int, ptn uint64) {
 		}
 	}
 	for i, o := range t.Outs {
-		if o.Addr[0] != 0 || o.Addr[1] <= 127 {
+		if o.Addr[0] != g.p.loc.BytePrefix() || o.Addr[1] <= 127 {
 			continue
 		}
 		owner := -1
@@ -1009,7 +1075,7 @@ func (g *gen) mutate(t *TxSpec, prev []TxSpec) string {
 
 func randomScenario(r *hlib.Rng, p *pool, kind string, rep *hlib.Report) *Scenario {
 	g := &gen{r: r, p: p}
-	s := &Scenario{Kind: kind, Tracks: true, Keys: p.keys}
+	s := &Scenario{Kind: kind, Tracks: true, Keys: p.keys, Loc: p.locBytes()}
 	s.Base = g.base()
 	nblocks := 1 + r.Pick(5, 3, 2)
 	if kind == "worker" {
@@ -1017,6 +1083,9 @@ func randomScenario(r *hlib.Rng, p *pool, kind string, rep *hlib.Report) *Scenar
 	}
 	if kind == "proc" && r.Chance(6) {
 		s.Tracks = false
+	}
+	if kind == "proc" && nblocks > 1 && r.Chance(50) {
+		s.Restart = true
 	}
 	idx := 0
 	var prev []TxSpec
